@@ -593,7 +593,7 @@ LEVEL_TEXT = (
     "constrained sample_momentum is the linear map P·L of the draw with (PL)(PL)ᵀ = P M Pᵀ = M − JᵀG⁻¹J, supported on the "
     "cotangent space (sampleMomentumConstrained_linear, projected_cov, constrained_momentum_cov, projected_cov_cotangent); "
     "the Crank–Nicolson update a·p + c·n with a² = 1 − c² maps independent zero-mean samples with second moment Σ to "
-    "second moment Σ and keeps the cotangent space (crank_nicolson_cov/_invariant/_cotangent); branch logic of "
+    "second moment Σ and keeps the cotangent space (crank_nicolson_cov/_invariant/_cotangent; crank_nicolson_cov_necessary: a^2 = 1 - c^2 is also necessary when the covariance is non-zero); branch logic of "
     "CorrelatedMomentumTransition.sample: c = 1 or mom None ⇒ full refresh with one draw, c = 0 ⇒ unchanged and no draw "
     "(correlated_coeff_one/_mom_none/_coeff_zero/_partial, branch_spec). Tied to the code by recovering the "
     "implementation's linear map L with basis-vector draws for every system class and metric type and comparing with the "
